@@ -466,7 +466,7 @@ def run_case(case, ctx):
 # MANIFEST-BEGIN
 MANIFEST = {
     'technique': 'reference monitor on the compiled DDE function called with a hand-made analytic history, plus method-of-steps reference for run()',
-    'level_text': 'Generated models with several delays on several state variables (both notations, products of delayed and instantaneous factors, delayed edges under adaptive solvers) are compiled for fixed-step and adaptive stepping and the returned function is called with hist(t)_i = sin(a_i t + b_i): every derivative must equal the reference RHS with component x of hist(t - tau) (t*dt - tau for step counters), which pins the history index, the time conversion and the delay of every term; run() with euler/heun is compared (1e-7) with a method-of-steps reference using the same linear interpolation and constant pre-history, run() with scipy with a fine-step RK4 reference (2e-3). Further families: 2-4 structurally identical nodes compiled with vectorize=True (past() terms and delayed edges under adaptive solvers), delays given as named operator constants, whole-number delays (x(t-10)), and long runs (1100-2600 steps) of real and complex linear DDEs against a hand-written loop. A vectorized family lets one scalar (unmerged) source project to the merged nodes with a different delay per connection. Coarser sampling (sampling step up to 20 integration steps) and torch-backend euler runs with past() terms are included; probe family: a function applied to a delayed term on torch (recorded finding). Delays are also written as difference chains (x(t-0.004-0.003)), and scipy runs may name the method explicitly (method= keyword). Held on observed models only.',
+    'level_text': 'Generated models with several delays on several state variables (both notations, products of delayed and instantaneous factors, delayed edges under adaptive solvers) are compiled for fixed-step and adaptive stepping and the returned function is called with hist(t)_i = sin(a_i t + b_i): every derivative must equal the reference RHS with component x of hist(t - tau) (t*dt - tau for step counters), which pins the history index, the time conversion and the delay of every term; run() with euler/heun is compared (1e-7) with a method-of-steps reference using the same linear interpolation and constant pre-history, run() with scipy with a fine-step RK4 reference (2e-3). Further families: 2-4 structurally identical nodes compiled with vectorize=True (past() terms and delayed edges under adaptive solvers), delays given as named operator constants, whole-number delays (x(t-10)), and long runs (1100-2600 steps) of real and complex linear DDEs against a hand-written loop. A vectorized family lets one scalar (unmerged) source project to the merged nodes with a different delay per connection. Coarser sampling (sampling step up to 20 integration steps) and torch-backend euler runs with past() terms are included; probe family: a function applied to a delayed term on torch (recorded finding). Delays are also written as difference chains (x(t-0.004-0.003)), and scipy runs may name the method explicitly (method= keyword). The difference-chain spelling also comes as x(t-a+b). Held on observed models only.',
     'level_note': 'Trusted: vp/ref.py with history callback, the fine-step reference (h = 2e-5). The looser adaptive tolerance reflects the linear interpolation of accepted steps in DDEHistory, not a property weakening: index/delay errors are O(1e-2..1).',
 }
 # MANIFEST-END
